@@ -45,6 +45,9 @@ def parse_annotations():
                     pending.setdefault('strength', 'bounded')
                     out[pending['id']] = pending
                     pending = None
+    names = sorted(v['harness'] for v in out.values())
+    clash = [(x, y) for x in names for y in names if x != y and x in y]
+    assert not clash, 'harness names must not contain one another (cargo kani --harness matches substrings): %s' % clash
     return out
 
 
